@@ -311,6 +311,10 @@ func (o *structFieldsCBOR) FromCBOR(dm cbor.DecMode, data []byte) error {
 			return err
 		}
 
+		if len(rest) == 0 {
+			return errors.New("unexpected EOF")
+		}
+
 		header = rest[0]
 		rest = rest[1:]
 		majorType = (0xe0 & header) >> 5
